@@ -36,6 +36,7 @@ class Locals:
     def __init__(self, fn: FuncNode):
         self.fn = fn
         self.defs: T.Dict[str, T.List[T.Optional[ast.AST]]] = {}
+        self.aug: T.Set[str] = set()      # names updated in place by an augmented assignment (x += ...)
         for n in self._walk(fn):
             if isinstance(n, ast.Assign):
                 for t in n.targets:
@@ -43,7 +44,10 @@ class Locals:
             elif isinstance(n, ast.AnnAssign) and n.value is not None:
                 self._bind(n.target, n.value)
             elif isinstance(n, ast.AugAssign):
-                self._bind(n.target, None)
+                if isinstance(n.target, ast.Name) and isinstance(n.op, ast.Add) and n.target.id in self.defs:
+                    self.aug.add(n.target.id)      # in-place extension of an existing local: not a new definition
+                else:
+                    self._bind(n.target, None)
             elif isinstance(n, (ast.For, ast.AsyncFor)):
                 self._bind(n.target, None)
             elif isinstance(n, (ast.With, ast.AsyncWith)):
@@ -289,3 +293,321 @@ def fmt_term(t: Term) -> str:
 
 __all__ = [n for n in dir() if not n.startswith('__')]
 _ = (norm,)
+
+
+# ---------------------------------------------------------------------------
+# Source-to-source normal form of one function (round 7): rules read `normal_func(...)`, not the raw definition.
+#   * statement-level calls of small repository helpers of the same class/module are inlined (two levels), parameters
+#     bound by signature, callee locals renamed apart, a single trailing `return e` turned into the assignment
+#   * `for x in filter(p, xs):` -> `for x in xs: if not p(x): continue`
+#   * `d = {k: v for x in xs [if c]}` and `d.update((k, v) for x in xs)` / `d.update({k: v for ...})` -> loop with `d[k] = v`
+#   * `if c: A; else: B` where a branch is a lone call statement is left alone (no control-flow rewriting)
+
+_INLINE_MAX_STMTS = 40
+# functions the rules look for by role at their call sites: a call to one of them is an anchor and is never inlined away
+ANCHOR_CALLS = {
+    'create_target_source_introspection', 'create_target_linker_introspection', 'create_test_serialisation', 'create_install_data',
+    'create_install_data_files', 'serialize_tests', 'generate_tests', 'generate_install', 'generate_target', 'generate', 'should_install',
+    'do_copyfile', 'do_copydir', 'do_symlink', 'load_tests', 'load_install_data', 'do_install', 'add_build_def_file', 'get_build_def_files',
+    'generate_introspection_file', 'write_intro_info', 'write_meson_info_file', 'get_test_list', 'generate_single_compile',
+    'generate_llvm_ir_compile', 'add_build', 'get_introspection_data', 'get_target_dir', 'get_testlike_targets',
+}
+
+
+def _count_stmts(body: T.List[ast.stmt]) -> int:
+    return sum(1 for st in body for n in ast.walk(st) if isinstance(n, ast.stmt))
+
+
+class _Rename(ast.NodeTransformer):
+    def __init__(self, mapping: T.Dict[str, ast.AST]):
+        self.mapping = mapping
+
+    def visit_Name(self, n: ast.Name) -> ast.AST:
+        r = self.mapping.get(n.id)
+        if r is None:
+            return n
+        if isinstance(n.ctx, ast.Load):
+            return _copy_at(r, n)
+        if isinstance(r, ast.Name):
+            return ast.copy_location(ast.Name(id=r.id, ctx=n.ctx), n)
+        return n
+
+
+def _copy_at(e: ast.AST, where: ast.AST) -> ast.AST:
+    import copy as _copy
+    c = _copy.deepcopy(e)
+    return c
+
+
+def _inlinable(callee: FuncNode) -> T.Optional[T.Optional[ast.AST]]:
+    """None if not inlinable; else ('no-value' -> ast.Constant(None) sentinel) the trailing return expression or a None-constant."""
+    body = [s for s in callee.body if not (isinstance(s, ast.Expr) and isinstance(s.value, ast.Constant))]
+    if not body or _count_stmts(body) > _INLINE_MAX_STMTS or callee.decorator_list and any(
+            attr_chain(d) not in ('staticmethod',) for d in callee.decorator_list):
+        return None
+    if callee.args.vararg or callee.args.kwarg:
+        return None
+    rets = [n for st in body for n in walk_no_nested(st) if isinstance(n, ast.Return)]
+    for st in body:
+        for n in ast.walk(st):
+            if isinstance(n, (ast.Yield, ast.YieldFrom, ast.Await, ast.Global, ast.Nonlocal, ast.FunctionDef, ast.AsyncFunctionDef, ast.Lambda, ast.ClassDef)):
+                return None
+    if not rets:
+        return ast.Constant(value=None)
+    if len(rets) == 1 and body[-1] is rets[0]:
+        return rets[0].value if rets[0].value is not None else ast.Constant(value=None)
+    return None
+
+
+def _inline_call(call: ast.Call, callee: FuncNode, uid: int, is_method: bool) -> T.Optional[T.Tuple[T.List[ast.stmt], ast.AST]]:
+    import copy as _copy
+    ret = _inlinable(callee)
+    if ret is None:
+        return None
+    try:
+        bound = bind_args(call, callee)
+    except Undecided:
+        return None
+    ps = params(callee) + [a.arg for a in callee.args.kwonlyargs]
+    pos = callee.args.posonlyargs + callee.args.args
+    pos = [a for a in pos if a.arg not in ('self', 'cls')]
+    defaults = dict(zip([a.arg for a in pos][len(pos) - len(callee.args.defaults):], callee.args.defaults))
+    defaults.update({a.arg: d for a, d in zip(callee.args.kwonlyargs, callee.args.kw_defaults) if d is not None})
+    if any(k not in ps for k in bound):
+        return None
+    body = [_copy.deepcopy(s) for s in callee.body if not (isinstance(s, ast.Expr) and isinstance(s.value, ast.Constant))]
+    assigned = {n.id for st in body for n in ast.walk(st) if isinstance(n, ast.Name) and isinstance(n.ctx, (ast.Store, ast.Del))}
+    mapping: T.Dict[str, ast.AST] = {}
+    pre: T.List[ast.stmt] = []
+    for p in ps:
+        a = bound.get(p, defaults.get(p))
+        if a is None:
+            return None
+        simple = isinstance(a, (ast.Name, ast.Constant)) or attr_chain(a) is not None
+        if simple and p not in assigned:
+            mapping[p] = a
+        else:
+            nm = f'{p}__i{uid}'
+            pre.append(ast.copy_location(ast.Assign(targets=[ast.Name(id=nm, ctx=ast.Store())], value=_copy.deepcopy(a), lineno=call.lineno, col_offset=0), call))
+            mapping[p] = ast.Name(id=nm, ctx=ast.Load())
+    for nm in assigned:
+        if nm not in mapping:
+            mapping[nm] = ast.Name(id=f'{nm}__i{uid}', ctx=ast.Load())
+    if is_method:
+        recv_e = call.func.value if isinstance(call.func, ast.Attribute) else None
+        if recv_e is None or attr_chain(recv_e) != 'self':
+            return None
+    if body and isinstance(body[-1], ast.Return):
+        body = body[:-1]
+    rn = _Rename(mapping)
+    out = pre + [rn.visit(s) for s in body]
+    rv = rn.visit(_copy.deepcopy(ret))
+    return out, rv
+
+
+class _Normaliser:
+    def __init__(self, mod: Module, cls: T.Optional[str], resolve_method: T.Optional[T.Callable[[str], T.Optional[FuncNode]]] = None):
+        self.mod = mod
+        self.cls = cls
+        self.uid = 0
+        self.resolve_method = resolve_method
+        self.stack: T.List[str] = []
+
+    def callee(self, call: ast.Call) -> T.Optional[T.Tuple[FuncNode, bool, str]]:
+        f = call.func
+        if isinstance(f, ast.Name) and self.mod.has_func(f.id):
+            return self.mod.func(f.id), False, f.id
+        if isinstance(f, ast.Attribute) and isinstance(f.value, ast.Name) and f.value.id == 'self' and self.cls:
+            q = f'{self.cls}.{f.attr}'
+            if self.mod.has_func(q):
+                return self.mod.func(q), True, q
+            if self.resolve_method is not None:
+                r = self.resolve_method(f.attr)
+                if r is not None:
+                    return r, True, f'?.{f.attr}'
+        return None
+
+    def block(self, body: T.List[ast.stmt], depth: int) -> T.List[ast.stmt]:
+        out: T.List[ast.stmt] = []
+        for st in body:
+            out.extend(self.stmt(st, depth))
+        return out
+
+    def stmt(self, st: ast.stmt, depth: int) -> T.List[ast.stmt]:
+        import copy as _copy
+        # recurse into compound statements first
+        for field in ('body', 'orelse', 'finalbody'):
+            sub = getattr(st, field, None)
+            if isinstance(sub, list) and sub and isinstance(sub[0], ast.stmt) and not isinstance(st, (ast.FunctionDef, ast.AsyncFunctionDef, ast.ClassDef)):
+                setattr(st, field, self.block(sub, depth))
+        for h in getattr(st, 'handlers', []):
+            h.body = self.block(h.body, depth)
+        # for x in filter(p, xs)
+        if isinstance(st, ast.For) and isinstance(st.iter, ast.Call) and isinstance(st.iter.func, ast.Name) and st.iter.func.id == 'filter' \
+                and len(st.iter.args) == 2 and not st.iter.keywords and isinstance(st.target, ast.Name) and not isinstance(st.iter.args[0], ast.Constant):
+            pred, xs = st.iter.args
+            test = ast.UnaryOp(op=ast.Not(), operand=ast.Call(func=pred, args=[ast.Name(id=st.target.id, ctx=ast.Load())], keywords=[]))
+            guard = ast.If(test=test, body=[ast.Continue()], orelse=[])
+            st.iter = xs
+            st.body = [guard] + st.body
+            ast.copy_location(guard, st)
+            ast.fix_missing_locations(st)
+            return [st]
+        # d = {k: v for x in xs if c}
+        if isinstance(st, (ast.Assign, ast.AnnAssign)) and isinstance(getattr(st, 'value', None), ast.DictComp):
+            tg = st.targets[0] if isinstance(st, ast.Assign) and len(st.targets) == 1 else getattr(st, 'target', None)
+            dc = st.value
+            if isinstance(tg, ast.Name) and len(dc.generators) == 1 and not dc.generators[0].is_async:
+                init = ast.Assign(targets=[ast.Name(id=tg.id, ctx=ast.Store())], value=ast.Dict(keys=[], values=[]))
+                loop = self._pair_loop(tg.id, dc.key, dc.value, dc.generators[0])
+                for n in (init, loop):
+                    ast.copy_location(n, st)
+                    ast.fix_missing_locations(n)
+                return [init, loop]
+        # d.update(<generator of pairs> | <dict comprehension>)
+        if isinstance(st, ast.Expr) and isinstance(st.value, ast.Call) and call_method(st.value) == 'update' and isinstance(st.value.func, ast.Attribute) \
+                and isinstance(st.value.func.value, ast.Name) and len(st.value.args) == 1 and not st.value.keywords:
+            a = st.value.args[0]
+            nm = st.value.func.value.id
+            loop = None
+            if isinstance(a, (ast.GeneratorExp, ast.ListComp)) and len(a.generators) == 1 and isinstance(a.elt, ast.Tuple) and len(a.elt.elts) == 2:
+                loop = self._pair_loop(nm, a.elt.elts[0], a.elt.elts[1], a.generators[0])
+            elif isinstance(a, ast.DictComp) and len(a.generators) == 1:
+                loop = self._pair_loop(nm, a.key, a.value, a.generators[0])
+            if loop is not None:
+                ast.copy_location(loop, st)
+                ast.fix_missing_locations(loop)
+                return [loop]
+        # x = a if c else b   /   return a if c else b   ->   if c: ... else: ...
+        if isinstance(st, (ast.Assign, ast.AnnAssign, ast.Return)) and isinstance(getattr(st, 'value', None), ast.IfExp):
+            ie = st.value
+
+            def mk(v: ast.AST) -> ast.stmt:
+                if isinstance(st, ast.Return):
+                    n: ast.stmt = ast.Return(value=v)
+                elif isinstance(st, ast.Assign):
+                    n = ast.Assign(targets=_copy.deepcopy(st.targets), value=v)
+                else:
+                    n = ast.Assign(targets=[_copy.deepcopy(st.target)], value=v)
+                return ast.fix_missing_locations(ast.copy_location(n, st))
+            node = ast.If(test=ie.test, body=self.stmt(mk(ie.body), depth), orelse=self.stmt(mk(ie.orelse), depth))
+            return [ast.fix_missing_locations(ast.copy_location(node, st))]
+        # statement-level helper calls
+        if depth > 0:
+            call = None
+            kind = None
+            if isinstance(st, ast.Expr) and isinstance(st.value, ast.Call):
+                call, kind = st.value, 'expr'
+            elif isinstance(st, ast.Assign) and len(st.targets) == 1 and isinstance(st.value, ast.Call):
+                call, kind = st.value, 'assign'
+            elif isinstance(st, ast.Return) and isinstance(st.value, ast.Call):
+                call, kind = st.value, 'return'
+            if call is not None:
+                c = self.callee(call)
+                # calls whose value is used are anchors of the rules unless the helper is private; bare call statements are always candidates
+                if c is not None and kind != 'expr' and not c[0].name.startswith('_'):
+                    c = None
+                if c is not None and c[0].name in ANCHOR_CALLS:
+                    c = None
+                if c is not None and c[2] not in self.stack:
+                    self.uid += 1
+                    r = _inline_call(call, c[0], self.uid, c[1])
+                    if r is not None:
+                        body, rv = r
+                        self.stack.append(c[2])
+                        body = self.block(body, depth - 1)
+                        self.stack.pop()
+                        if kind == 'assign':
+                            body.append(ast.Assign(targets=st.targets, value=rv))
+                        elif kind == 'return':
+                            body.append(ast.Return(value=rv))
+                        elif not (isinstance(rv, ast.Constant) and rv.value is None):
+                            body.append(ast.Expr(value=rv))
+                        for n in body:
+                            for x in ast.walk(n):
+                                if not hasattr(x, 'lineno') or True:
+                                    pass
+                            ast.fix_missing_locations(ast.copy_location(n, st) if not hasattr(n, 'lineno') else n)
+                        _ = _copy
+                        return body or [ast.copy_location(ast.Pass(), st)]
+        return [st]
+
+    @staticmethod
+    def _pair_loop(name: str, k: ast.AST, v: ast.AST, g: ast.comprehension) -> ast.For:
+        store: ast.stmt = ast.Assign(targets=[ast.Subscript(value=ast.Name(id=name, ctx=ast.Load()), slice=k, ctx=ast.Store())], value=v)
+        body: T.List[ast.stmt] = [store]
+        for c in reversed(g.ifs):
+            body = [ast.If(test=c, body=body, orelse=[])]
+        return ast.For(target=g.target, iter=g.iter, body=body, orelse=[])
+
+
+def normal_func(mod: Module, q: str, resolve_method: T.Optional[T.Callable[[str], T.Optional[FuncNode]]] = None, fn: T.Optional[FuncNode] = None,
+                inline: int = 2) -> FuncNode:
+    """Normal form of the function `q` of `mod` (cached on the Module object)."""
+    import copy as _copy
+    cache = getattr(mod, '_c15_nf', None)
+    if cache is None:
+        cache = {}
+        setattr(mod, '_c15_nf', cache)
+    key = (q if fn is None else f'{q}@{id(fn)}') + f'/{inline}'
+    if key in cache:
+        return cache[key]
+    raw = fn if fn is not None else mod.func(q)
+    f2 = _copy.deepcopy(raw)
+    cls = q.rsplit('.', 1)[0] if '.' in q else None
+    nz = _Normaliser(mod, cls, resolve_method)
+    nz.stack.append(q if '.' not in q else q)
+    f2.body = nz.block(f2.body, inline)
+    ast.fix_missing_locations(f2)
+    cache[key] = f2
+    return f2
+
+
+def fold_template(e: ast.AST, var: str, mark: str = 'KIND') -> T.Optional[str]:
+    """Text template of a string expression over one variable: f-string, `a + 'lit'`, `'..%s..' % v`, `'..{}..'.format(v)`,
+    `''.join([...])`; the variable is rendered as `mark`.  None when the expression is not such a template."""
+    if isinstance(e, ast.Constant) and isinstance(e.value, str):
+        return e.value
+    if isinstance(e, ast.Name) and e.id == var:
+        return mark
+    if isinstance(e, ast.Call) and isinstance(e.func, ast.Name) and e.func.id == 'str' and len(e.args) == 1:
+        return fold_template(e.args[0], var, mark)
+    if isinstance(e, ast.JoinedStr):
+        out = ''
+        for v in e.values:
+            if isinstance(v, ast.Constant):
+                out += str(v.value)
+            elif isinstance(v, ast.FormattedValue) and v.format_spec is None and v.conversion in (-1, 115):
+                t = fold_template(v.value, var, mark)
+                if t is None:
+                    return None
+                out += t
+            else:
+                return None
+        return out
+    if isinstance(e, ast.BinOp) and isinstance(e.op, ast.Add):
+        a, b = fold_template(e.left, var, mark), fold_template(e.right, var, mark)
+        return None if a is None or b is None else a + b
+    if isinstance(e, ast.BinOp) and isinstance(e.op, ast.Mod) and isinstance(e.left, ast.Constant) and isinstance(e.left.value, str):
+        args = e.right.elts if isinstance(e.right, ast.Tuple) else [e.right]
+        parts = e.left.value.split('%s')
+        if len(parts) != len(args) + 1 or '%' in ''.join(parts):
+            return None
+        ts = [fold_template(a, var, mark) for a in args]
+        if any(t is None for t in ts):
+            return None
+        return ''.join(p + (t or '') for p, t in zip(parts, ts + ['']))  # type: ignore[operator]
+    if isinstance(e, ast.Call) and call_method(e) == 'format' and isinstance(e.func, ast.Attribute) and isinstance(e.func.value, ast.Constant) \
+            and isinstance(e.func.value.value, str) and not e.keywords:
+        parts = e.func.value.value.split('{}')
+        if len(parts) != len(e.args) + 1 or '{' in ''.join(parts):
+            return None
+        ts = [fold_template(a, var, mark) for a in e.args]
+        if any(t is None for t in ts):
+            return None
+        return ''.join(p + (t or '') for p, t in zip(parts, ts + ['']))  # type: ignore[operator]
+    if isinstance(e, ast.Call) and call_method(e) == 'join' and isinstance(e.func, ast.Attribute) and isinstance(e.func.value, ast.Constant) \
+            and e.func.value.value == '' and len(e.args) == 1 and isinstance(e.args[0], (ast.List, ast.Tuple)):
+        ts = [fold_template(a, var, mark) for a in e.args[0].elts]
+        return None if any(t is None for t in ts) else ''.join(ts)  # type: ignore[arg-type]
+    return None
